@@ -140,6 +140,9 @@ func (d *storeDrv) openOn(fs vfs.FS) error {
 
 // runCrash runs history h with the crash trigger at FS operation k (0 = no
 // crash, count only).  Returns the number of FS operations seen.
+// opsBeforeClose: FS operations issued up to the return of the last call of the history (counting run)
+var opsBeforeClose int64
+
 func (d *storeDrv) runCrash(hi int, h []histStep, k int64, kinds *[]string) (int64, bool, error) {
 	d.vers = nil
 	d.verBase, d.pad = d.plan.baseOf(hi), d.plan.Pad
@@ -178,6 +181,9 @@ func (d *storeDrv) runCrash(hi int, h []histStep, k int64, kinds *[]string) (int
 	fired := cfs.fired.Load()
 	if kinds != nil {
 		*kinds = cfs.kinds
+	}
+	if k == 0 {
+		opsBeforeClose = cfs.n.Load()
 	}
 	// whatever Close writes after the trigger is never synced, hence dropped
 	d.peb.Close()
@@ -260,6 +266,9 @@ func storeCrash(args []string) error {
 					pick = append(pick, ks[lo+rng.Intn(hi-lo)])
 				}
 			}
+			// always: the machine dies right after the last call has returned (nothing but what the calls
+			// themselves made durable survives), and at the very last operation of the shutdown
+			pick = append(pick, opsBeforeClose+1, opsBeforeClose+2, n)
 			ks = pick
 		}
 		for _, k := range ks {
